@@ -103,6 +103,12 @@ def pureTranslated : List String → Option String
       -- hand model: the C18 cap (GetUnreceivedBlocksByAddress has its own, smaller bound and is not in the stream)
       let m := if sz > Gen.RpcMaxPageSize then "toobig" else "passed"
       pure (both t m)
+  | ["tr-filter", ts] => do
+      let cs := if ts = "-" then [] else ts.toList
+      if cs.any (fun ch => !ch.isDigit) then none
+      let tys : List Nat := cs.map (fun ch => ch.toNat - '0'.toNat)
+      let t := resStr (fun (l : List (BitVec 64)) => toString l.length) (Translated.filterBlocksToCommit (tys.map bv64))
+      pure (both t (toString (Pool.filterBlocksToCommit tys).length))
   | _ => none
 
 end ZV.Driver
